@@ -1,10 +1,13 @@
 package harness
 
 import (
+	"encoding/json"
 	"fmt"
 	"io"
 	"math/rand"
 	"net"
+	"os"
+	"strings"
 	"testing"
 	"time"
 
@@ -134,6 +137,37 @@ func TestHandshaker(t *testing.T) {
 		k++
 		label := fmt.Sprintf("hs-%d", k)
 		out.Add(label, rec.Ev{"label": label}, fmt.Sprint(steps), runHandshaker(t, steps, k%2 == 0))
+	}
+	if f := os.Getenv("VERIF_SCN_FILE"); f != "" {
+		// scenarios TLC generated from spec/mc/MC_HsScn.tla
+		data, err := os.ReadFile(f)
+		if err != nil {
+			panic(err)
+		}
+		var all [][]string
+		for _, ln := range strings.Split(string(data), "\n") {
+			if strings.TrimSpace(ln) == "" {
+				continue
+			}
+			var x struct {
+				Steps []string `json:"steps"`
+			}
+			if err := json.Unmarshal([]byte(ln), &x); err != nil {
+				panic(err)
+			}
+			all = append(all, x.Steps)
+		}
+		rng.Shuffle(len(all), func(i, j int) { all[i], all[j] = all[j], all[i] })
+		if n := count(400, 1000000); n < len(all) {
+			all = all[:n]
+		}
+		for _, st := range all {
+			if out.Stop() {
+				break
+			}
+			add(st)
+		}
+		return
 	}
 	// scripted: the situations the specification distinguishes
 	add([]string{"start c1", "good c1", "wait", "close", "wait"})
